@@ -827,3 +827,125 @@ Proof.
            2:{ symmetry. apply Nat.eqb_neq. unfold j, down_level. destruct (k <? li)%nat eqn:E2; [apply Nat.ltb_lt in E2|apply Nat.ltb_ge in E2]; lia. }
            rewrite Hup in Hc. exact Hc.
 Qed.
+
+(* flattened *)
+Lemma leaf_level_nth t : leaf_level t = nth (length t - 1) t [].
+Proof.
+  unfold leaf_level. induction t as [|a l IH]; [reflexivity|].
+  destruct l as [|b l']; [reflexivity|].
+  change (last (a :: b :: l') []) with (last (b :: l') []). rewrite IH. cbn [length].
+  replace (S (S (length l')) - 1)%nat with (S (S (length l') - 1))%nat by lia. reflexivity.
+Qed.
+
+Lemma cell_ok_flat t r o : validate t = true -> wf t ->
+  Election.path_ok [leaf_level t] [r] = true ->
+  backfill_one (drop_cells t) (place [(length t - 1)%nat] [r]) = TOk o ->
+  cell_ok t [(length t - 1)%nat] o = true.
+Proof.
+  intros V W P H. destruct (path_ok_elim _ _ P) as (_ & N & _).
+  pose proof (N 0%nat r eq_refl) as Hleaf. cbn [nth] in Hleaf. rewrite leaf_level_nth in Hleaf.
+  assert (Hne : t <> []) by (apply validate_iff in V; tauto).
+  set (n := length t) in *.
+  assert (Hn : (0 < n)%nat) by (unfold n; destruct t; [congruence | cbn; lia]).
+  (* the shape of the completed cell *)
+  assert (F : length o = n /\ lookup (n - 1) o = Some (direct r) /\
+              forall k, (S k < n)%nat -> exists finer p,
+                lookup (S k) o = Some finer /\ parent_of (nth k t []) (o_asg finer) = Some p /\
+                lookup k o = Some (inferred p finer)).
+  { unfold backfill_one in H. rewrite drop_cells_length in H. fold n in H.
+    change (place [(n - 1)%nat] [r]) with [((n - 1)%nat, direct r)] in H.
+    destruct (n - 1)%nat as [|d] eqn:En.
+    - cbn in H. inversion H; subst o. split; [cbn; lia|]. split; [reflexivity|]. intros k Hk. lia.
+    - destruct (fold_climb (drop_cells t) d [(S d, direct r)] o) as (A0 & A1 & A2).
+      + intros k Hk. cbn. replace (k =? S d)%nat with false by (symmetry; apply Nat.eqb_neq; lia). reflexivity.
+      + cbn. rewrite Nat.eqb_refl. discriminate.
+      + exact H.
+      + split; [rewrite A0; cbn; lia|]. split.
+        * rewrite A1 by lia. cbn. rewrite Nat.eqb_refl. reflexivity.
+        * intros k Hk. destruct (A2 k) as (finer & p & F1 & F2 & F3); [lia|].
+          exists finer, p. rewrite drop_cells_nth in F2 by (fold n; exact Hk). auto. }
+  destruct F as (F0 & F1 & F2).
+  apply cell_ok_intro; auto. intros k Hk. fold n in Hk.
+  destruct (Nat.eq_dec k (n - 1)) as [->|Hne'].
+  - exists (direct r). split; [exact F1|].
+    replace (nat_mem (n - 1) [(n - 1)%nat]) with true by (cbn; rewrite Nat.eqb_refl; reflexivity).
+    split; [reflexivity|]. split; [discriminate|]. split; [exact Hleaf|]. intros f _ HS. fold n in HS. lia.
+  - destruct (F2 k) as (finer & p & G1 & G2 & G3); [lia|]. exists (inferred p finer). split; [exact G3|].
+    replace (nat_mem k [(n - 1)%nat]) with false
+      by (cbn; apply Nat.eqb_neq in Hne'; rewrite Hne'; reflexivity).
+    exists finer, p. auto.
+Qed.
+
+(* ------------------------------------------------------------------ the reduced tree is again a mapping tree *)
+Lemma tree_ok_wf t : tree_ok t -> wf t.
+Proof.
+  intros Ht. apply Forall_forall. intros lv Hlv. apply In_nth with (d := []) in Hlv.
+  destruct Hlv as (k & _ & <-). apply (tk_nodup t Ht k).
+Qed.
+
+Lemma tree_ok_of_validate t : validate t = true -> wf t ->
+  nodes (hd [] t) <> [] ->
+  (forall k x, (S k < length t)%nat -> In x (nodes (nth k t [])) -> children_of (nth k t []) x <> []) ->
+  tree_ok t.
+Proof.
+  intros V W Htop Hchild. constructor.
+  - apply validate_iff in V. tauto.
+  - exact Htop.
+  - intros k. apply wf_nth. exact W.
+  - intros k x c Hk Hc. apply (listed_child_exists t V k x c Hk Hc).
+  - intros k x x' c Hk Hne Hc Hc'. apply Hne.
+    destruct (validate_strict t k V Hk) as (_ & _ & U).
+    apply (U x x' c); apply children_of_lists; assumption.
+  - exact Hchild.
+Qed.
+
+Lemma levels_nonempty t : tree_ok t -> forall k, (k < length t)%nat -> nodes (nth k t []) <> [].
+Proof.
+  intros Ht. induction k as [|k IH]; intros Hk.
+  - destruct t as [|a l]; [cbn in Hk; lia|]. exact (tk_top _ Ht).
+  - specialize (IH ltac:(lia)). destruct (nodes (nth k t [])) as [|x xs] eqn:E; [congruence|].
+    assert (Hx : In x (nodes (nth k t []))) by (rewrite E; left; reflexivity).
+    pose proof (tk_has_child t Ht k x Hk Hx) as Hc.
+    destruct (children_of (nth k t []) x) as [|c cs] eqn:Ec; [congruence|].
+    assert (Hin : In c (nodes (nth (S k) t []))) by (apply (tk_children_exist t Ht k x c Hk); rewrite Ec; left; reflexivity).
+    intros E0. rewrite E0 in Hin. destruct Hin.
+Qed.
+
+Lemma tree_ok_raw_drop t li : tree_ok t -> validate t = true -> (S li < length t)%nat ->
+  tree_ok (raw_drop t li).
+Proof.
+  intros Ht V Hli. pose proof (tree_ok_wf t Ht) as W.
+  destruct (raw_drop_validate t li V W Hli) as [V' _].
+  assert (Hlen : length (raw_drop t li) = (length t - 1)%nat) by (apply raw_drop_length; lia).
+  assert (Hnodes : forall k, (k < length t - 1)%nat ->
+                   nodes (nth k (raw_drop t li) []) = nodes (nth (up_level li k) t [])).
+  { intros k Hk. rewrite raw_drop_nth by lia. unfold up_level. destruct (S k =? li)%nat eqn:E.
+    - apply Nat.eqb_eq in E. rewrite merge_nodes.
+      replace (k <? li)%nat with true by (symmetry; apply Nat.ltb_lt; lia). reflexivity.
+    - destruct (k <? li)%nat; reflexivity. }
+  apply tree_ok_of_validate; [exact V' | apply raw_drop_wf; exact W | |].
+  - replace (hd [] (raw_drop t li)) with (nth 0 (raw_drop t li) []) by (destruct (raw_drop t li); reflexivity).
+    rewrite Hnodes by lia. apply levels_nonempty; [exact Ht|]. unfold up_level. destruct (0 <? li)%nat; lia.
+  - intros k x Hk Hx. rewrite Hlen in Hk. rewrite Hnodes in Hx by lia.
+    rewrite raw_drop_children by lia. unfold up_level in *. destruct (S k =? li)%nat eqn:E.
+    + apply Nat.eqb_eq in E. replace (k <? li)%nat with true in Hx by (symmetry; apply Nat.ltb_lt; lia).
+      pose proof (tk_has_child t Ht k x ltac:(lia) Hx) as Hc.
+      destruct (children_of (nth k t []) x) as [|d ds] eqn:Ed; [congruence|].
+      assert (Hd : In d (nodes (nth (S k) t []))) by (apply (tk_children_exist t Ht k x d ltac:(lia)); rewrite Ed; left; reflexivity).
+      rewrite E in Hd. pose proof (tk_has_child t Ht li d Hli Hd) as Hc2.
+      cbn [flat_map]. destruct (children_of (nth li t []) d); [congruence | discriminate].
+    + apply Nat.eqb_neq in E. apply (tk_has_child t Ht); [|exact Hx].
+      destruct (k <? li)%nat eqn:E2; [apply Nat.ltb_lt in E2|apply Nat.ltb_ge in E2]; lia.
+Qed.
+
+Lemma tree_ok_leaf t : tree_ok t -> tree_ok [leaf_level t].
+Proof.
+  intros Ht. assert (Hn : (0 < length t)%nat) by (pose proof (tk_nonempty t Ht); destruct t; [congruence | cbn; lia]).
+  constructor.
+  - discriminate.
+  - cbn [hd]. rewrite leaf_level_nth. apply levels_nonempty; [exact Ht | lia].
+  - intros [|k]; cbn [nth]; [rewrite leaf_level_nth; apply (tk_nodup t Ht) | destruct k; constructor].
+  - intros k x c Hk. cbn in Hk. lia.
+  - intros k x x' c Hk. cbn in Hk. lia.
+  - intros k x Hk. cbn in Hk. lia.
+Qed.
